@@ -248,6 +248,9 @@ def c04(ctx):
 
 
 def c06(ctx):
+    # the property quantifies over all configurations: import statements are also recorded with reordering on
+    ctx.record("gap-ro", universe="gap", widths="all", single="1/2" if ctx.quick else "1/1", pair="0/1", tabs="2", ros="1",
+               seed_tags="import", trivia_tags="cmt,off", parts="flat", passes="false")
     fmt_family(ctx, ["R06"], "flat", trivia_tags="cmt,off", gap_quick="1/6", pair_fixed="1/200",
                models=("list", "chain", "markup"))
 
@@ -274,7 +277,20 @@ def c12(ctx):
 
 
 def c19(ctx):
-    fmt_family(ctx, ["R19"], "imp", models=(), seed_tags="import,markup", gap_quick="1/2", pair_fixed="1/20", pair_quick="1/10")
+    # the flag must reach the formatter through every front-end: import sources x options through the CLI vs the library
+    binp, bs = C.build_cli()
+    ctx.build_s += bs
+    d3 = os.path.join(ctx.work, "rec-fe")
+    C.run([C.VT, "frontends", "--universe", "gap", "--seed-tags", "import", "--single", "1/30" if ctx.quick else "1/4", "--pair", "0/1",
+           "--take", "250" if ctx.quick else "3000", "--seed", str(ctx.seed), "--bin", binp, "--outdir", d3, "--shards", "6",
+           "--work", os.path.join(ctx.work, "fe-scratch"), "--verif", C.VERIF,
+           "--fixtures", os.path.join(C.REPO, "tests", "fixtures")], timeout=3000)
+    s3 = json.load(open(os.path.join(d3, "summary.json")))
+    ctx.recdirs.append(d3)
+    ctx.rec_summaries.append(dict(name="frontends", **{k: s3[k] for k in ("universe", "elements", "events", "format_calls",
+                                                                           "nontrivial_events", "universe_stats")}))
+    ctx.nontrivial += s3["nontrivial_events"]
+    fmt_family(ctx, ["R19", "R16"], "imp", models=(), seed_tags="import,markup", gap_quick="1/2", pair_fixed="1/20", pair_quick="1/10")
 
 
 def c07(ctx):
@@ -325,11 +341,11 @@ def cli_family(ctx):
     # design check: the code-shaped driver satisfies the contract in every state, any directory order
     ctx.design_check("Cli", "SPECIFICATION Spec\nINVARIANTS TypeOK Contract\nCHECK_DEADLOCK FALSE\n" +
                      CLI_CONSTS % (2, 1 if q else 2, "FALSE"))
-    scen = cli_scenarios(ctx, 2, 1 if q else 2)
+    scen = cli_scenarios(ctx, 2, 2)
     total = len(scen)
     import hashlib
     if q:
-        want = 2500
+        want = 3000
         keyed = sorted(scen, key=lambda j: hashlib.sha256(("%d|%s" % (ctx.seed, j["id"])).encode()).hexdigest())
         # every scenario kind is represented: all format-all / stdin / noinput shapes, a slice of the file lists
         special = [j for j in keyed if j["inv"]["kind"] != "list"]
@@ -453,7 +469,11 @@ def c13(ctx):
             n += 1
     C.run([C.VT, "ranges", "--universe", "file", "--input", mut, "--max-doc", "90", "--cfgs", "40:2:2:0", "--trees", "false",
            "--outdir", d2, "--shards", "4"], timeout=3000)
-    for dd in (d, d2):
+    d4 = os.path.join(ctx.work, "rec-ranges-nl")
+    C.run([C.VT, "ranges", "--universe", "nl", "--nl-fixed", "1/400", "--nl-chunk", "0/1", "--nl-sample", "1/4" if q else "1/1",
+           "--seed", str(ctx.seed), "--max-doc", "60", "--cfgs", "40:2:2:0", "--outdir", d4, "--shards", "6",
+           "--verif", C.VERIF, "--fixtures", os.path.join(C.REPO, "tests", "fixtures")], timeout=3000)
+    for dd in (d, d2, d4):
         ss = json.load(open(os.path.join(dd, "summary.json")))
         ctx.recdirs.append(dd)
         ctx.rec_summaries.append(dict(name=os.path.basename(dd), **{k: ss[k] for k in (
